@@ -671,7 +671,8 @@ type c11sWorker struct {
 	canary   *c11sCanary
 	cur      atomic.Int64
 	stats    map[string]int
-	extra    []c11sFinding // findings not tied to the judged observation (canary, exit status)
+	extra    []c11sFinding // findings not tied to the judged observation (canary, exit status, idle order)
+	noIdle   bool
 }
 
 func (w *c11sWorker) start() error {
@@ -680,8 +681,16 @@ func (w *c11sWorker) start() error {
 		return err
 	}
 	w.child = c
-	w.canary = c11sStartCanary(c.addr, w.watchdog, &w.cur)
 	w.stats["children"]++
+	// the idle-order scenario, once per child (before the canary and the streams: the timing belongs to it alone)
+	if !w.noIdle {
+		if cause, desc := c11sIdleOrder(c.addr, w.stats["children"], w.stats); cause != "" {
+			w.extra = append(w.extra, c11sFinding{idx: -1, cause: cause, desc: desc})
+		} else if desc != "" {
+			w.stats["idle.scenario-error"]++
+		}
+	}
+	w.canary = c11sStartCanary(c.addr, w.watchdog, &w.cur)
 	return nil
 }
 
@@ -874,6 +883,7 @@ func c11sRunOracle(args []string) int {
 	capMB := fs.Int("rsscap", 3072, "kill the child above this resident set (MB)")
 	asMB := fs.Int("aslimit", 16384, "RLIMIT_AS of the child (MB, 0 = none)")
 	dump := fs.Bool("dump", false, "print every stream's observation and verdict")
+	noIdle := fs.Bool("noidle", false, "skip the idle-order scenario")
 	_ = fs.Parse(args)
 	self, err := os.Executable()
 	if err != nil {
@@ -948,7 +958,7 @@ func c11sRunOracle(args []string) int {
 		wg.Add(1)
 		go func(wi int) {
 			defer wg.Done()
-			w := &c11sWorker{self: self, watchdog: time.Duration(*wdMs) * time.Millisecond, capMB: *capMB, asMB: *asMB, stats: map[string]int{}}
+			w := &c11sWorker{self: self, watchdog: time.Duration(*wdMs) * time.Millisecond, capMB: *capMB, asMB: *asMB, stats: map[string]int{}, noIdle: *noIdle || *replay != ""}
 			for i := wi; i < len(streams); i += *workers {
 				outcomes[i] = w.run(i, streams[i])
 			}
